@@ -3,6 +3,7 @@ import M3d.Lemmas.C17Search
 import M3d.Lemmas.C17Bezier
 import M3d.Lemmas.C17Split
 import M3d.Lemmas.C17Seg
+import M3d.Lemmas.C17Svd2
 import M3d.Gen.Binomial
 /-!
 # C17 — numerical and curve kernels satisfy their defining equations
@@ -138,6 +139,313 @@ theorem mat4_transpose_involutive (m : M4 K) :
   refine ⟨rfl, ?_⟩
   obtain ⟨a, b, c, d, e, f, g, h, i, j, k, l, m1, n, o, p⟩ := m
   simp only [M4.transpose, M4.det]; ring
+
+/-! ## Scale covariance of the decompositions
+
+"Well-conditioned" is scale-free: `M` and `s·M` have the same condition number.  The theorems below say
+how every modelled ingredient of the inverse / eigen / singular-value kernels transforms under
+`M ↦ s·M` (`Scale(s)`), so that the verdict on a scaled instance `2^k·M` is the verdict on `M`
+(the correspondence kind `scov.f` checks, bit for bit, that the real code follows these laws for exact
+powers of two; `resid.v … _scaled` measures the residuals relative to the matrix norm). -/
+
+/-- `Det` of `Scale(s)`: `det(s·M) = s²·det M` (2×2). -/
+theorem mat2_smul_det (m : M2 K) (s : K) : (m.scale s).det = s ^ 2 * m.det := by
+  simp only [M2.scale, M2.det]; ring
+
+/-- `det(s·M) = s³·det M` (3×3). -/
+theorem mat3_smul_det (m : M3 K) (s : K) : (m.scale s).det = s ^ 3 * m.det := by
+  simp only [M3.scale, M3.det]; ring
+
+/-- `det(s·M) = s⁴·det M` (`Matrix4.Scale`, `Matrix4.Det`). -/
+theorem mat4_smul_det (m : M4 K) (s : K) : (m.scale s).det = s ^ 4 * m.det := by
+  obtain ⟨a, b, c, d, e, f, g, h, i, j, k, l, m1, n, o, p⟩ := m
+  simp only [M4.scale, M4.det]; ring
+
+/-- `Inverse` is covariant: `(s·M)⁻¹ = s⁻¹·M⁻¹` as computed by the code (adjugate times `1/det`), for
+EVERY `s` and `M` (also the degenerate ones, where both sides are the zero matrix of `x/0 = 0`). -/
+theorem mat2_smul_inverse (m : M2 K) (s : K) : (m.scale s).inverse = m.inverse.scale s⁻¹ := by
+  simp only [M2.inverse, M2.invertDet, M2.scale, M2.det]
+  by_cases hs : s = 0
+  · subst hs; simp
+  by_cases hd : m.m0 * m.m3 - m.m1 * m.m2 = 0
+  · have h2 : m.m0 * s * (m.m3 * s) - m.m1 * s * (m.m2 * s) = 0 := by linear_combination s ^ 2 * hd
+    rw [hd, h2]; simp
+  · have h2 : m.m0 * s * (m.m3 * s) - m.m1 * s * (m.m2 * s) ≠ 0 := by
+      intro h; apply hd
+      have : s ^ 2 * (m.m0 * m.m3 - m.m1 * m.m2) = 0 := by linear_combination h
+      rcases mul_eq_zero.mp this with h' | h'
+      · exact absurd (pow_eq_zero_iff (n := 2) (by norm_num) |>.mp h') hs
+      · exact h'
+    congr 1 <;> (push_cast; field_simp)
+
+example : (M2.scale (⟨1, 2, 3, 5⟩ : M2 ℚ) 4).inverse = (M2.inverse ⟨1, 2, 3, 5⟩).scale (1/4) := by
+  decide +kernel
+
+/-- `(s·M)⁻¹ = s⁻¹·M⁻¹` (3×3, as computed: adjugate of `s·M` is `s²·adj M`, `det` is `s³·det M`). -/
+theorem mat3_smul_inverse (m : M3 K) (s : K) : (m.scale s).inverse = m.inverse.scale s⁻¹ := by
+  have hdet := mat3_smul_det m s
+  simp only [M3.inverse, M3.invertDet]
+  rw [hdet]
+  generalize m.det = d
+  simp only [M3.scale, M3.adj]
+  by_cases hs : s = 0
+  · subst hs; simp
+  by_cases hd : d = 0
+  · subst hd; simp
+  · congr 1 <;> (push_cast; field_simp)
+
+/-- `MulColumnInv` with the scaled determinant: the solution of `(s·M)·x = c` is `s⁻¹` times the
+solution of `M·x = c`. -/
+theorem mat2_smul_mulColumnInv (m : M2 K) (c : V2 K) (s : K) :
+    (m.scale s).mulColumnInv c (m.scale s).det = (m.mulColumnInv c m.det).scale s⁻¹ := by
+  rw [mat2_smul_det]
+  generalize m.det = d
+  simp only [M2.mulColumnInv, M2.mulColumn, M2.scale, V2.scale]
+  by_cases hs : s = 0
+  · subst hs; simp
+  by_cases hd : d = 0
+  · subst hd; simp
+  · congr 1 <;> (push_cast; field_simp)
+
+/-- … and 3×3. -/
+theorem mat3_smul_mulColumnInv (m : M3 K) (c : V3 K) (s : K) :
+    (m.scale s).mulColumnInv c (m.scale s).det = (m.mulColumnInv c m.det).scale s⁻¹ := by
+  rw [mat3_smul_det]
+  generalize m.det = d
+  simp only [M3.mulColumnInv, M3.mulColumn, M3.scale, M3.adj, V3.scale]
+  by_cases hs : s = 0
+  · subst hs; simp
+  by_cases hd : d = 0
+  · subst hd; simp
+  · congr 1 <;> (push_cast; field_simp)
+
+/-- An eigenpair scales: `M·v = λ·v ⇒ (s·M)·v = (s·λ)·v` (2×2). -/
+theorem mat2_smul_eigenpair (m : M2 K) (v : V2 K) (lam s : K) (h : m.mulColumn v = v.scale lam) :
+    (m.scale s).mulColumn v = v.scale (s * lam) := by
+  simp only [M2.mulColumn, V2.scale, V2.mk.injEq] at h
+  obtain ⟨h1, h2⟩ := h
+  simp only [M2.mulColumn, M2.scale, V2.scale]
+  congr 1
+  · linear_combination s * h1
+  · linear_combination s * h2
+
+/-- `M·v = λ·v ⇒ (s·M)·v = (s·λ)·v` (3×3). -/
+theorem mat3_smul_eigenpair (m : M3 K) (v : V3 K) (lam s : K) (h : m.mulColumn v = v.scale lam) :
+    (m.scale s).mulColumn v = v.scale (s * lam) := by
+  simp only [M3.mulColumn, V3.scale, V3.mk.injEq] at h
+  obtain ⟨h1, h2, h3⟩ := h
+  simp only [M3.mulColumn, M3.scale, V3.scale]
+  congr 1
+  · linear_combination s * h1
+  · linear_combination s * h2
+  · linear_combination s * h3
+
+/-- The quadratic that `Matrix2.Eigenvalues` solves is the characteristic polynomial:
+`x² + b·x + c = det(x·I − M)`. -/
+theorem mat2_eigen_charpoly (m : M2 K) (x : K) :
+    x ^ 2 + m.eigCoeffs.1 * x + m.eigCoeffs.2 = (M2.xIminus x m).det := by
+  simp only [M2.eigCoeffs, M2.xIminus, M2.det]; ring
+
+/-- Its coefficients scale like `s`, `s²`; hence `χ_{sM}(s·x) = s²·χ_M(x)`: the eigenvalues of
+`s·M` are `s` times those of `M`. -/
+theorem mat2_smul_charpoly (m : M2 K) (s x : K) :
+    (m.scale s).eigCoeffs = (s * m.eigCoeffs.1, s ^ 2 * m.eigCoeffs.2) ∧
+    (M2.xIminus (s * x) (m.scale s)).det = s ^ 2 * (M2.xIminus x m).det := by
+  refine ⟨?_, ?_⟩
+  · simp only [M2.eigCoeffs, M2.scale, M2.det, Prod.mk.injEq]; constructor <;> ring
+  · simp only [M2.xIminus, M2.scale, M2.det]; ring
+
+/-- The cubic that `Matrix3.Eigenvalues` solves (`a = −1`, `b = trace`, `c = ½(tr M² − tr² M)`,
+`d = Det()`) is the characteristic polynomial: `−x³ + b·x² + c·x + d = det(M − x·I)`. -/
+theorem mat3_eigen_charpoly (m : M3 K) (x : K) (h2 : (2 : K) ≠ 0) :
+    -x ^ 3 + m.eigCoeffs.1 * x ^ 2 + m.eigCoeffs.2.1 * x + m.eigCoeffs.2.2 = (m.minusXI x).det := by
+  simp only [M3.eigCoeffs, M3.trace, M3.sqTrace, M3.minusXI, M3.det]
+  push_cast
+  field_simp
+  ring
+
+/-- The coefficients scale like `s`, `s²`, `s³`; hence `χ_{sM}(s·x) = s³·χ_M(x)`: the three
+eigenvalues of `s·M` are `s` times those of `M` (so an ABSOLUTE threshold on an intermediate of the
+cubic formula cannot be right). -/
+theorem mat3_smul_charpoly (m : M3 K) (s x : K) :
+    (m.scale s).eigCoeffs = (s * m.eigCoeffs.1, s ^ 2 * m.eigCoeffs.2.1, s ^ 3 * m.eigCoeffs.2.2) ∧
+    ((m.scale s).minusXI (s * x)).det = s ^ 3 * (m.minusXI x).det := by
+  refine ⟨?_, ?_⟩
+  · simp only [M3.eigCoeffs, M3.trace, M3.sqTrace, M3.scale, M3.det, Prod.mk.injEq]
+    refine ⟨by ring, by ring, by ring⟩
+  · simp only [M3.minusXI, M3.scale, M3.det]; ring
+
+/-- `Matrix4.CharPoly` of `s·M`: coefficient `i` is `s^(4−i)` times that of `M`, and therefore
+`χ_{sM}(s·x) = s⁴·χ_M(x)`. -/
+theorem mat4_smul_charpoly (m : M4 K) (s x : K) :
+    (m.scale s).charPoly = List.zipWith (fun (e : Nat) c => s ^ e * c) [4, 3, 2, 1, 0] m.charPoly ∧
+    Poly.eval (m.scale s).charPoly (s * x) = s ^ 4 * Poly.eval m.charPoly x := by
+  obtain ⟨a, b, c, d, e, f, g, h, i, j, k, l, m1, n, o, p⟩ := m
+  refine ⟨?_, ?_⟩
+  · simp only [M4.scale, M4.charPoly, List.zipWith_cons_cons, List.zipWith_nil_left, List.cons.injEq, and_true]
+    refine ⟨by ring, by ring, by ring, by ring, by ring⟩
+  · rw [Poly.eval_eq_spec, Poly.eval_eq_spec]
+    simp only [M4.scale, M4.charPoly, Poly.evalSpec_cons, Poly.evalSpec_nil]
+    push_cast
+    ring
+
+/-- The Gram matrix `MᵀM` (whose eigenvalues `SVD` takes the square roots of) scales by `s²`, so the
+singular values scale by `|s|` (2×2, 3×3, 4×4). -/
+theorem mat_smul_gram (m2 : M2 K) (m3 : M3 K) (m4 : M4 K) (s : K) :
+    (m2.scale s).gram = m2.gram.scale (s ^ 2) ∧ (m3.scale s).gram = m3.gram.scale (s ^ 2) ∧
+    (m4.scale s).gram = m4.gram.scale (s ^ 2) := by
+  refine ⟨?_, ?_, ?_⟩
+  · simp only [M2.gram, M2.scale, M2.transpose, M2.mul]; congr 1 <;> ring
+  · simp only [M3.gram, M3.scale, M3.transpose, M3.mul]; congr 1 <;> ring
+  · simp only [M4.gram, M4.scale, M4.transpose, M4.mul]; congr 1 <;> ring
+
+/-- A reconstruction `M = U·Σ·Vᵀ` (as the harness multiplies it: `u.Mul(s).Mul(v.Transpose())`) of `M`
+is, with `Σ` scaled and the SAME `U`, `V`, a reconstruction of `s·M` (2×2). -/
+theorem mat2_svd_smul (u sg v m : M2 K) (s : K) (h : (u.mul sg).mul v.transpose = m) :
+    (u.mul (sg.scale s)).mul v.transpose = m.scale s := by
+  subst h
+  simp only [M2.scale, M2.transpose, M2.mul]; congr 1 <;> ring
+
+/-- … 3×3. -/
+theorem mat3_svd_smul (u sg v m : M3 K) (s : K) (h : (u.mul sg).mul v.transpose = m) :
+    (u.mul (sg.scale s)).mul v.transpose = m.scale s := by
+  subst h
+  simp only [M3.scale, M3.transpose, M3.mul]; congr 1 <;> ring
+
+/-- … 4×4. -/
+theorem mat4_svd_smul (u sg v m : M4 K) (s : K) (h : (u.mul sg).mul v.transpose = m) :
+    (u.mul (sg.scale s)).mul v.transpose = m.scale s := by
+  subst h
+  simp only [M4.scale, M4.transpose, M4.mul]; congr 1 <;> ring
+
+/-! ## `Matrix2.Eigenvalues`, `symEigDecomp`, `SVD` (`numerical/matrix2.go`, `model2d/matrix.go`)
+
+The faithful models of `M3d/Model/Svd2.lean` (run bit for bit against the real code by the kinds `eig2`, `symeig2`,
+`svd2`).  `sqrt` is any function with `sqrt(x)² = x` and `sqrt(x) ≥ 0` on `x ≥ 0` (`SqrtSpec`; the real square
+root is one: `sqrt_spec_real`).  No conditioning hypothesis is needed over an exact field: the statements hold for
+EVERY matrix, singular and repeated-singular-value cases included. -/
+
+section Svd2
+variable [LinearOrder K] [IsStrictOrderedRing K]
+
+/-- `Matrix2.Eigenvalues`, non-negative discriminant: the two returned values are real, they are the roots of
+the characteristic polynomial `det(x·I − M)`, ascending, with sum `trace` and product `Det()`. -/
+theorem mat2_eigenvalues_real (sqrt : K → K) (hs : SqrtSpec sqrt) (m : M2 K) (hd : 0 ≤ m.eigDisc) :
+    (M2.xIminus (m.eigenvalues sqrt).1 m).det = 0 ∧ (M2.xIminus (m.eigenvalues sqrt).2.1 m).det = 0 ∧
+      (m.eigenvalues sqrt).1 + (m.eigenvalues sqrt).2.1 = m.m0 + m.m3 ∧
+      (m.eigenvalues sqrt).1 * (m.eigenvalues sqrt).2.1 = m.det ∧
+      (m.eigenvalues sqrt).1 ≤ (m.eigenvalues sqrt).2.1 ∧ (m.eigenvalues sqrt).2.2 = 0 :=
+  M2.eigenvalues_real hs m hd
+
+/-- Negative discriminant: the matrix has NO real eigenvalue, and the returned conjugate pair `re ± i·im`
+has `re = trace/2`, `re² + im² = Det()`, `im > 0` — it is the pair of complex roots. -/
+theorem mat2_eigenvalues_complex (sqrt : K → K) (hs : SqrtSpec sqrt) (m : M2 K) (hd : m.eigDisc < 0) :
+    (∀ x : K, (M2.xIminus x m).det ≠ 0) ∧ (m.eigenvalues sqrt).1 = (m.m0 + m.m3) / 2 ∧
+      (m.eigenvalues sqrt).2.1 = (m.m0 + m.m3) / 2 ∧
+      (m.eigenvalues sqrt).1 * (m.eigenvalues sqrt).1 + (m.eigenvalues sqrt).2.2 * (m.eigenvalues sqrt).2.2 = m.det ∧
+      0 < (m.eigenvalues sqrt).2.2 :=
+  M2.eigenvalues_complex hs m hd
+
+/-- A symmetric matrix (every `mᵀ·m` that `SVD` passes in) has a non-negative discriminant. -/
+theorem mat2_sym_disc_nonneg (m : M2 K) (h : m.m1 = m.m2) : 0 ≤ m.eigDisc := M2.eigDisc_sym_nonneg m h
+
+/-- **`Matrix2.symEigDecomp` reconstructs every symmetric matrix**: `V·S·Vᵀ = M`, `VᵀV = 1`, `S` diagonal, larger
+eigenvalue first, `trace` and `Det()` preserved. -/
+theorem mat2_symEigDecomp_reconstructs (sqrt : K → K) (hs : SqrtSpec sqrt) (m : M2 K) (hsym : m.m1 = m.m2) :
+    ((m.symEigDecomp sqrt).2.mul (m.symEigDecomp sqrt).1).mul (m.symEigDecomp sqrt).2.transpose = m ∧
+      (m.symEigDecomp sqrt).2.transpose.mul (m.symEigDecomp sqrt).2 = M2.one ∧
+      (m.symEigDecomp sqrt).1.m1 = 0 ∧ (m.symEigDecomp sqrt).1.m2 = 0 ∧
+      (m.symEigDecomp sqrt).1.m3 ≤ (m.symEigDecomp sqrt).1.m0 ∧
+      (m.symEigDecomp sqrt).1.m0 + (m.symEigDecomp sqrt).1.m3 = m.m0 + m.m3 ∧
+      (m.symEigDecomp sqrt).1.m0 * (m.symEigDecomp sqrt).1.m3 = m.det :=
+  M2.symEigDecomp_correct hs m hsym
+
+/-- **`Matrix2.SVD` reconstructs every matrix**: `U·Σ·Vᵀ = M` (multiplied as `u.Mul(s).Mul(v.Transpose())`),
+`UᵀU = VᵀV = 1`, `Σ` diagonal with `σ₁ ≥ σ₂ ≥ 0`, `σ₁² + σ₂² = ‖M‖_F²`, `σ₁·σ₂ = |Det()|` — all branches of the
+code (vanishing rows in `symEigs`, `M·v1 = 0`, the two sign flips) included. -/
+theorem mat2_svd_reconstructs (sqrt : K → K) (hs : SqrtSpec sqrt) (m : M2 K) :
+    ((m.svd sqrt).1.mul (m.svd sqrt).2.1).mul (m.svd sqrt).2.2.transpose = m ∧
+      (m.svd sqrt).1.transpose.mul (m.svd sqrt).1 = M2.one ∧
+      (m.svd sqrt).2.2.transpose.mul (m.svd sqrt).2.2 = M2.one ∧
+      (m.svd sqrt).2.1.m1 = 0 ∧ (m.svd sqrt).2.1.m2 = 0 ∧
+      0 ≤ (m.svd sqrt).2.1.m3 ∧ (m.svd sqrt).2.1.m3 ≤ (m.svd sqrt).2.1.m0 ∧
+      (m.svd sqrt).2.1.m0 * (m.svd sqrt).2.1.m0 + (m.svd sqrt).2.1.m3 * (m.svd sqrt).2.1.m3 =
+        m.m0 * m.m0 + m.m1 * m.m1 + m.m2 * m.m2 + m.m3 * m.m3 ∧
+      (m.svd sqrt).2.1.m0 * (m.svd sqrt).2.1.m3 = |m.det| :=
+  M2.svd_correct hs m
+
+/-- The hypothesis on `sqrt` is satisfiable: the real square root. -/
+theorem sqrt_spec_real : SqrtSpec (K := ℝ) Real.sqrt := M2.sqrtSpec_real
+
+end Svd2
+
+/-- A concrete run of the model (a `sqrt` table for the squares that occur): `diag(3, 2)` — the second flip fires. -/
+example :
+    M2.svd (fun x : ℚ => if x = 25 then 5 else if x = 9 then 3 else if x = 4 then 2 else if x = 1 then 1 else 0)
+      ⟨3, 0, 0, 2⟩ = (⟨1, 0, 0, -1⟩, ⟨3, 0, 0, 2⟩, ⟨1, 0, 0, -1⟩) := by decide +kernel
+example : M2.eigenvalues (fun x : ℚ => if x = 25 then 5 else 0) ⟨9, 0, 0, 4⟩ = (4, 9, 0) := by decide +kernel
+example : M2.eigenvalues (fun x : ℚ => if x = 4 then 2 else 0) ⟨0, -1, 1, 0⟩ = (0, 0, 1) := by decide +kernel
+
+/-! ## Vectors (`numerical/vecs.go`; tied to the regenerated `Vec2/3/4` kernels by `KernelsTieNumeric`) -/
+
+/-- `Vec3.Cross` is orthogonal to both arguments and satisfies Lagrange's identity
+`|a×b|² = |a|²|b|² − (a·b)²`. -/
+theorem vec3_cross_orthogonal (a b : V3 K) :
+    (a.cross b).dot a = 0 ∧ (a.cross b).dot b = 0 ∧
+      (a.cross b).dot (a.cross b) = a.dot a * b.dot b - a.dot b * a.dot b := by
+  simp only [V3.cross, V3.dot]; refine ⟨by ring, by ring, by ring⟩
+
+/-- `DistSquared` is the squared norm of the difference (2, 3 and 4 components). -/
+theorem vec_distSquared_eq (a2 b2 : V2 K) (a3 b3 : V3 K) (a4 b4 : V4 K) :
+    a2.distSquared b2 = (a2.sub b2).dot (a2.sub b2) ∧ a3.distSquared b3 = (a3.sub b3).dot (a3.sub b3) ∧
+      a4.distSquared b4 = (a4.sub b4).dot (a4.sub b4) := by
+  simp only [V2.distSquared, V2.sub, V2.dot, V3.distSquared, V3.sub, V3.dot, V4.distSquared, V4.sub, V4.dot]
+  push_cast
+  refine ⟨by ring, by ring, by ring⟩
+
+section VecSqrt
+variable (sqrtF : K → K)
+
+/-- `Normalize` returns a unit vector for every non-zero vector, for any `sqrt` whose square at the squared
+length is that squared length (2, 3, 4 components). -/
+theorem vec_normalize_unit (a2 : V2 K) (a3 : V3 K) (a4 : V4 K)
+    (h2 : sqrtF (a2.dot a2) * sqrtF (a2.dot a2) = a2.dot a2) (n2 : a2.dot a2 ≠ 0)
+    (h3 : sqrtF (a3.dot a3) * sqrtF (a3.dot a3) = a3.dot a3) (n3 : a3.dot a3 ≠ 0)
+    (h4 : sqrtF (a4.dot a4) * sqrtF (a4.dot a4) = a4.dot a4) (n4 : a4.dot a4 ≠ 0) :
+    (a2.normalize sqrtF).dot (a2.normalize sqrtF) = 1 ∧ (a3.normalize sqrtF).dot (a3.normalize sqrtF) = 1 ∧
+      (a4.normalize sqrtF).dot (a4.normalize sqrtF) = 1 := by
+  refine ⟨?_, ?_, ?_⟩
+  · have hq : sqrtF (a2.dot a2) ≠ 0 := by intro h; rw [h] at h2; exact n2 (by linear_combination -h2)
+    simp only [V2.normalize, V2.norm, V2.scale] at *
+    generalize sqrtF (a2.dot a2) = q at *
+    simp only [V2.dot] at *
+    push_cast; field_simp; linear_combination -h2
+  · have hq : sqrtF (a3.dot a3) ≠ 0 := by intro h; rw [h] at h3; exact n3 (by linear_combination -h3)
+    simp only [V3.normalize, V3.norm, V3.scale] at *
+    generalize sqrtF (a3.dot a3) = q at *
+    simp only [V3.dot] at *
+    push_cast; field_simp; linear_combination -h3
+  · have hq : sqrtF (a4.dot a4) ≠ 0 := by intro h; rw [h] at h4; exact n4 (by linear_combination -h4)
+    simp only [V4.normalize, V4.norm, V4.scale] at *
+    generalize sqrtF (a4.dot a4) = q at *
+    simp only [V4.dot] at *
+    push_cast; field_simp; linear_combination -h4
+
+/-- `ProjectOut(v1)` removes the component along `v1`: the result is orthogonal to `v1` (3 components;
+the 2- and 4-component versions are the same code). -/
+theorem vec3_projectOut_orthogonal (a b : V3 K)
+    (hb : sqrtF (b.dot b) * sqrtF (b.dot b) = b.dot b) (nb : b.dot b ≠ 0) :
+    (a.projectOut sqrtF b).dot b = 0 := by
+  have hq : sqrtF (b.dot b) ≠ 0 := by intro h; rw [h] at hb; exact nb (by linear_combination -hb)
+  simp only [V3.projectOut, V3.normalize, V3.norm, V3.scale, V3.add] at *
+  generalize sqrtF (b.dot b) = q at *
+  simp only [V3.dot] at *
+  push_cast; field_simp; linear_combination (a.x * b.x + a.y * b.y + a.z * b.z) * hb
+
+end VecSqrt
+
+example : (V3.cross (⟨1, 2, 3⟩ : V3 ℚ) ⟨4, 5, 6⟩) = ⟨-3, 6, -3⟩ := by decide +kernel
+example : (V2.normalize (fun _ => (5 : ℚ)) ⟨3, 4⟩) = ⟨3/5, 4/5⟩ := by decide +kernel
 
 /-! ## Polynomials (`numerical/polynomial.go`) -/
 
